@@ -8,10 +8,12 @@ from harness.common import sim, usbref
 from harness.props import sspkt_util as U
 
 PROP = "C40"
-LEAN_MODULES = ["LunaVerif.Props.C40"]
+LEAN_MODULES = ["LunaVerif.Props.C40", "LunaVerif.Lemmas.C40Header"]
 DRIVER = "Driver/C40.lean"
 REQUIRED_THEOREMS = ["exactly_one_verdict_per_packet", "good_iff_crcs_valid", "payload_len_exact",
-                     "independent_of_invalid_words"]
+                     "independent_of_invalid_words", "hinv_reachable", "check_header_units", "dpp_start_header_valid",
+                     "verdict_implies_header_crcs_valid", "good_iff_crcs_valid_from_reset",
+                     "good_iff_crc_valid_zero_length_from_reset"]
 RULE = ("cases = word streams of data packets (header + DPP) with payload lengths 0..16, 1020..1024 and random "
         "(every residue mod 4), each either clean or with a corrupted CRC32 (1 bit / random), CRC16, CRC5, a "
         "non-DATA type, a K symbol in a payload word (first / middle / last), or no DPPSTART after the header; "
@@ -20,9 +22,10 @@ RULE = ("cases = word streams of data packets (header + DPP) with payload length
         "turn; every case is also simulated without its invalid words and the two verdict/payload sequences are compared")
 ASSUMPTIONS = ["payload length field 0..1024 (legal USB3 DPP); the word stream is the aligned, descrambled "
                "receive stream: 4 symbols per word with per-symbol ctrl flags and a valid flag"]
-PARTIAL = ("the theorems start at the data packet payload (CHECK_HEADER accepting a header): that the CRC-16 unit has "
-           "absorbed exactly DWORD 0..2 and the CRC-5 register belongs to DWORD 3 when CHECK_HEADER runs is shown by "
-           "co-simulation only (no invariant theorem over the header states); lengths > 1024 (illegal) are outside the statement")
+PARTIAL = ("lengths > 1024 (illegal) are outside the statement's wording but not outside the theorems (they hold for every "
+           "11-bit length field); `good iff CRCs valid` is stated per packet (from any history from reset up to the payload "
+           "start, then the payload words + CRC word with invalid words interleaved), not as one closed formula over a "
+           "multi-packet stream")
 
 KINDS = [(50, "good"), (8, "crc32-bit"), (6, "crc32-rand"), (6, "crc16"), (6, "crc5"), (4, "type"),
          (5, "k-first"), (5, "k-last"), (4, "k-mid"), (4, "no-dpp"), (2, "crc32-zero")]
